@@ -27,7 +27,8 @@ class World:
     cooperative shims into the given modules, and tears everything down so
     that no thread, fd or loop outlives the case."""
 
-    def __init__(self, schedule=None, trace=(), modules=(), max_steps=400000):
+    def __init__(self, schedule=None, trace=(), modules=(), max_steps=400000, tie_seed=None):
+        self.tie_seed = tie_seed
         self.schedule = schedule or {'mode': 'none'}
         self.trace = tuple(trace)
         self.modules = tuple(modules)
@@ -42,6 +43,7 @@ class World:
                        max_steps=self.max_steps)
         self.sim.locks = []
         self.sim.executors = []
+        self.sim.tie_seed = self.tie_seed
         self.old_policy = asyncio.get_event_loop_policy()
         asyncio.set_event_loop_policy(SimPolicy(self.sim))
         self.inst = shims.install(self.sim, self.modules)
